@@ -28,7 +28,10 @@ def int_lit(val, ty):
 def concrete_ty(spec, ty):
     import re
     for k, v in (spec.subst or {}).items():
-        ty = re.sub(r"\b%s\b" % k, v, ty)
+        if k.startswith("'"):
+            ty = re.sub(r"%s\b" % k, v, ty)
+        else:
+            ty = re.sub(r"\b%s\b" % k, v, ty)
     return ty
 
 
